@@ -21,6 +21,7 @@ import (
 //	type : one object against every type symbol of the class registry, and coerce
 //	sub  : rows I, I+subRows, ... of the subtypep matrix over the class registry
 //	coerce : one source object x one documented coerce target (deterministic grid)
+//	ccoerce : row I of the grid of compound type specifiers as coerce targets
 //	user : freshly defined classes / flavors / conditions / structures (Defs) and an instance of each
 type Case struct {
 	Kind string `json:"kind"`
@@ -36,14 +37,14 @@ type Case struct {
 const subRows = 64
 
 type plan struct {
-	rows, sub, typeFixed, histProbe, coerceGrid, userFixed, sweep, histExh2, histExh, twoTab, big, typeSeeded, user, mini, hist int
-	depth, depth2                                                                                                int
+	rows, sub, typeFixed, histProbe, coerceGrid, userFixed, sweep, histExh2, histExh, twoTab, big, compound, typeSeeded, user, mini, hist int
+	depth, depth2                                                                                                                         int
 }
 
 func planOf(tier string) plan {
 	p := plan{rows: len(universe), sub: subRows, typeFixed: len(typeObjects()), histProbe: len(probeHistories()),
 		coerceGrid: len(coerceSources) * len(coerceTargets), userFixed: len(fixedUserCases()), sweep: len(sweepHistories()),
-		twoTab: len(twoTableHistories()), big: len(bigCases())}
+		twoTab: len(twoTableHistories()), big: len(bigCases()), compound: len(compoundGrid)}
 	if tier == "thorough" {
 		p.depth, p.depth2 = 4, 3
 		p.typeSeeded = 1500
@@ -64,7 +65,7 @@ func planOf(tier string) plan {
 
 func nCases(tier string) int {
 	p := planOf(tier)
-	return p.rows + p.sub + p.typeFixed + p.histProbe + p.coerceGrid + p.userFixed + p.sweep + p.histExh2 + p.histExh + p.twoTab + p.big + p.typeSeeded + p.user + p.mini + p.hist
+	return p.rows + p.sub + p.typeFixed + p.histProbe + p.coerceGrid + p.userFixed + p.sweep + p.histExh2 + p.histExh + p.twoTab + p.big + p.compound + p.typeSeeded + p.user + p.mini + p.hist
 }
 
 func gen(r *rand.Rand, i int, tier string) Case {
@@ -86,7 +87,11 @@ func gen(r *rand.Rand, i int, tier string) Case {
 	}
 	i -= p.histProbe
 	if i < p.coerceGrid {
-		return Case{Kind: "coerce", Objs: []Obj{opq(coerceSources[i/len(coerceTargets)])}, Ty: coerceTargets[i%len(coerceTargets)]}
+		src := opq(coerceSources[i/len(coerceTargets)])
+		if src.V == "nil" {
+			src = Obj{K: "nil", V: "nil"} // (an opaque object is one that exists: nil is described as what it is)
+		}
+		return Case{Kind: "coerce", Objs: []Obj{src}, Ty: coerceTargets[i%len(coerceTargets)]}
 	}
 	i -= p.coerceGrid
 	if i < p.userFixed {
@@ -113,6 +118,10 @@ func gen(r *rand.Rand, i int, tier string) Case {
 		return bigCases()[i]
 	}
 	i -= p.big
+	if i < p.compound {
+		return Case{Kind: "ccoerce", I: i}
+	}
+	i -= p.compound
 	if i < p.typeSeeded {
 		return Case{Kind: "type", Objs: []Obj{randObj(r, 1+r.IntN(3))}}
 	}
@@ -144,6 +153,8 @@ func exec(x *fw.Ctx, c Case) {
 		execSub(x, c)
 	case "coerce":
 		execCoerce(x, c)
+	case "ccoerce":
+		execCompound(x, c)
 	case "user":
 		execUser(x, c)
 	default:
@@ -178,26 +189,36 @@ func initWorker() {
 func init() {
 	fw.Register(fw.Spec[Case]{
 		ID: "C16",
-		Rule: "seven case kinds. row: object i of a fixed 207-object universe of near-collisions (equal numbers in every representation, values that differ but collide after " +
-			"float conversion, pointer representations built twice, strings/characters differing in case, lists/vectors/hash tables/2-d arrays/instances built twice and differing in one leaf) " +
+		Rule: "nine case kinds. row: object i of a fixed 325-object universe of near-collisions (equal numbers in every representation incl. complex and the integer objects only coerce makes - " +
+			"octet, signed-byte, unsigned-byte, bit -, values that differ but collide after float conversion, pointer representations built twice, strings/characters differing in case, " +
+			"lists/vectors/bit vectors/octets/hash tables (also with nil values and other keys)/2-d arrays/instances built twice and differing in one leaf, the empty list reached through six operations) " +
 			"against every object, all four predicates in both directions, every triple through each related pair, sxhash of each equal pair, sxhash of the same object again in a new form " +
-			"and after a garbage collection (exhaustive, same for every seed). " +
+			"and after a garbage collection, and the object against itself after a trip through a list, vector, array, hash table, instance, function call, values, second variable " +
+			"(exhaustive, same for every seed). " +
 			"mini: a seeded universe of 4-12 objects derived from 2-3 random nested objects by copy / same-value-family substitution / float-collision substitution / one-leaf change / " +
 			"container change, all pairs and triples; non-trivial = at least one related (equalp) pair of distinct objects. " +
 			"hist: a hash-table history over 6 key slots, each key built twice (so that lookups use an equivalent, not the identical, key), x 5 table tests; " +
-			"fixed probe histories; a sweep of 10 key sets holding every hashable kind with its near-collisions (characters and strings differing in case, one name as string/character/symbol/keyword, " +
-			"nested vectors, instances of classes/flavors/structures/conditions, arrays, streams) x 2 scripts x 5 tests; every history of <= 3 (quick) / 4 (thorough) operations out of " +
-			"{setf-gethash k, remhash k, clrhash} over a fixed key set and of <= 2 / 3 over a second (a A #\\a 'a :a 97) (exhaustive); then seeded histories of 5-12 operations incl. " +
-			"gethash/maphash/hash-table-count; after EVERY operation gethash of all 12 key objects, hash-table-count and the maphash contents are compared with an association-list model. " +
-			"Avoided in most histories (known broken on the pinned tree, kept in a minority: 1 seeded history in 8 and the probe block): bignum/ratio/long-float keys, numbers equal by value " +
-			"in different representations, list/hash-table/octets keys. " +
+			"fixed probe histories; a sweep of 11 key sets holding every hashable kind with its near-collisions (characters and strings differing in case, one name as string/character/symbol/keyword, " +
+			"octet/bit/complex numbers, nested vectors, instances of classes/flavors/structures/conditions, arrays, streams) x 2 scripts x 5 tests; every history of <= 3 (quick) / 4 (thorough) operations out of " +
+			"{setf-gethash k (every third stores nil), remhash k, clrhash} over a fixed key set and of <= 2 / 3 over a second (a A #\\a 'a :a 97) (exhaustive); fixed two-table histories " +
+			"(two tables from two make-hash-table calls sharing the key objects, the first also reached through a second variable; maphash functions that remove / re-store the entry they are called with; " +
+			"a store whose value form fails); then seeded histories of 5-12 operations incl. gethash/maphash/hash-table-count/those three (one in four over two tables); " +
+			"after EVERY operation gethash of all 12 key objects, hash-table-count and the maphash contents of every table are compared with an association-list model. " +
+			"Avoided in most histories (known broken on the pinned tree, kept in a minority: 1 seeded history in 8 and the probe block): bignum/ratio/long-float/signed-byte/unsigned-byte keys, numbers equal by value " +
+			"in different representations, list/empty-list-of-length-0/hash-table/octets keys. " +
+			"big: tables of 0 1 7 8 9 16 17 64 65 200 1000 keys x 6 kinds of keys x 5 tests driven through one script (store all in a loop, store again through equivalent keys, remove every third, remove again, " +
+			"a removing maphash, store every sixth, clrhash, store one): count, every lookup and the visited set after each step. " +
 			"type: one object (fixed list incl. instances of classes, flavors, conditions, streams...; plus seeded nested objects) x every class of the registry " +
 			"(enumerated at run time) for typep, subtypep agreement and class-precedence supertypes, x 27 coerce targets. " +
 			"coerce: deterministic grid of 53 source objects (every documented source row, every float format integral and fractional) x 27 targets; result type judged by typep and by " +
 			"representation; where the documented table (parsed from coerce's FuncDoc at run time) marks the cell supported and the value is convertible, a refusal is a failure. " +
+			"ccoerce: 68 (source, compound type specifier) cells - (integer lo hi) and the other numeric heads with bounds on and next to the value, (signed-byte n), (unsigned-byte n), (vector elt n), (bit-vector n): " +
+			"result typep the head and inside the specifier, no refusal of a value inside it. " +
 			"user: 2-6 freshly defined standard classes / flavors / conditions / structures with random direct supertypes (fixed chain, forest, diamond per kind first), an instance of each: " +
-			"type-of, typep and subtypep against every definition vs the harness's closure of the declared supertypes, base types, class precedence list. " +
-			"sub: every row of the subtypep matrix over the registry: reflexive, second value, and transitivity over ALL class triples (both tiers).",
+			"type-of, typep and subtypep against every definition vs the harness's closure of the declared supertypes, base types, class precedence list; for standard classes and conditions half of the " +
+			"cases (and 10 fixed ones) define 1-3 of the types AGAIN with other supertypes: the closure of the last definitions is the oracle, and instances made before the redefinition are judged for " +
+			"typep/subtypep agreement. " +
+			"sub: every row of the subtypep matrix over the registry: reflexive, second value, transitivity over ALL class triples (both tiers), and the same answers when the types are given as class objects.",
 		N:        nCases,
 		Gen:      gen,
 		Exec:     exec,
